@@ -357,7 +357,7 @@ pub fn build(
             expect = if doc_supported(&op, &k) { Expect::Valid } else { Expect::IllTyped };
         }
     }
-    let tail_publish = publish.len();
+    let tail_publish = publish.len() + matches!(op, Operation::Publish) as usize;
     instrs.push(main);
     for p in publish {
         instrs.push(Instruction {
